@@ -546,7 +546,9 @@ ALL_CHECKS = ["C01", "C02", "C03", "C04", "C05", "C06", "C07", "C08", "C10", "C1
 for _d in sorted(_glob.glob(_os.path.join(_ROOT, "benign", "*"))):
     _p = _os.path.join(_d, "patch.diff")
     if _os.path.exists(_p):
-        VARIANTS.append(dict(id="benign-" + _os.path.basename(_d), props=list(ALL_CHECKS), kind="benign", edits=[], patch=_p))
+        _bm = _json.load(open(_os.path.join(_d, "meta.json"))) if _os.path.exists(_os.path.join(_d, "meta.json")) else {}
+        VARIANTS.append(dict(id="benign-" + _os.path.basename(_d), props=list(ALL_CHECKS), kind="benign", edits=[], patch=_p,
+                             allow_error_for=_bm.get("no_verdict_expected_for")))
 for _d in sorted(_glob.glob(_os.path.join(_ROOT, "seeded", "*"))):
     _p, _m = _os.path.join(_d, "patch.diff"), _os.path.join(_d, "meta.json")
     if _os.path.exists(_p) and _os.path.exists(_m):
